@@ -282,6 +282,13 @@ def rules(ctx, tier):
                    "right, but the bytes are stored out of order - get_range(0, n) returns bytes of a later chunk")
     if x is not None:
         out.append(x)
+    x = share_rule(ctx, tier, c18, "R5", "R7",
+                   "what a read slices is the committed content: the publish step returns Ok only behind the rename of this "
+                   "transaction's staging file (or a tested 'destination exists') (shared with C18-R5 / C03-R1)",
+                   "the publish step skips the rename when a file with that name exists: a short file left by a crash is "
+                   "kept, the key is committed with length L, and get_range(L-10, L) returns nothing")
+    if x is not None:
+        out.append(x)
     return out
 
 
